@@ -6,12 +6,25 @@
 //
 // stdout: one line per case
 //
-//	P <ok|err|err64> | STR <hex Root.String()> | I <name:idx>,* | B <hex name>,* | R <ok|fail|panic:created|panic:other> | ST <n> (<hex name> T)* | T <tree>
+//	P <ok|err|err64> | PT <pattern tree> | I <name:idx>,* | B <hex name>,* | R <ok|fail|panic:created|panic:other> | ST <n> (<hex name> T)* | T <tree>
 //
 // where T is the c09ser serialisation of the value handed to Match and of every bound
-// value (sorted by name), idx is the unexported Binding.idx read by reflection (pre-order),
-// B is Pattern.Bindings.  The pattern is parsed without type information
+// value (sorted by name), PT is the parsed Pattern.Root serialised structurally (serPat, with
+// the unexported Binding.idx read by reflection), I lists the bindings in pre-order (for
+// reports), B is Pattern.Bindings.  The pattern is parsed without type information
 // (Parser.AllowTypeInfo=false); Matcher.TypesInfo stays nil.
+//
+// PT grammar (prefix notation):
+//
+//	PT ::= g                              Go nil in a Node field
+//	     | a | n                          Any, Nil
+//	     | s <hex>                        String
+//	     | b <hex name> <idx> PT          Binding
+//	     | o <n> PT*                      Or
+//	     | x PT                           Not
+//	     | l PT PT                        List head tail
+//	     | k <Kind> <n> (<field> PT)*     any other pattern node struct, exported fields in order
+//	     | u <GoType>                     anything else (rejected by the model driver)
 //
 // -tables prints the tables the Lean model carries as data: the String->token.Token
 // conversion (probed through the exported String.Match) and the field names of every
@@ -78,6 +91,65 @@ func walk(n pattern.Node, out *[]string) {
 						walk(c, out)
 					}
 				}
+			}
+		}
+	}
+}
+
+// serPat serialises a parsed pattern node structurally.
+func serPat(sb *strings.Builder, n pattern.Node) {
+	if n == nil {
+		sb.WriteString(" g")
+		return
+	}
+	switch x := n.(type) {
+	case pattern.Any:
+		sb.WriteString(" a")
+	case pattern.Nil:
+		sb.WriteString(" n")
+	case pattern.String:
+		sb.WriteString(" s " + c09ser.Hex(string(x)))
+	case pattern.Binding:
+		idx := reflect.ValueOf(x).FieldByName("idx").Int()
+		fmt.Fprintf(sb, " b %s %d", c09ser.Hex(x.Name), idx)
+		serPat(sb, x.Node)
+	case pattern.Or:
+		fmt.Fprintf(sb, " o %d", len(x.Nodes))
+		for _, c := range x.Nodes {
+			serPat(sb, c)
+		}
+	case pattern.Not:
+		sb.WriteString(" x")
+		serPat(sb, x.Node)
+	case pattern.List:
+		sb.WriteString(" l")
+		serPat(sb, x.Head)
+		serPat(sb, x.Tail)
+	default:
+		v := reflect.ValueOf(n)
+		if v.Kind() != reflect.Struct {
+			fmt.Fprintf(sb, " u %T", n)
+			return
+		}
+		T := v.Type()
+		var fs []int
+		for i := 0; i < T.NumField(); i++ {
+			if !T.Field(i).IsExported() {
+				break
+			}
+			if T.Field(i).Type != rtNode {
+				fmt.Fprintf(sb, " u %T", n)
+				return
+			}
+			fs = append(fs, i)
+		}
+		fmt.Fprintf(sb, " k %s %d", T.Name(), len(fs))
+		for _, i := range fs {
+			sb.WriteString(" " + T.Field(i).Name)
+			if v.Field(i).IsNil() {
+				sb.WriteString(" g")
+			} else {
+				serPat(sb, v.Field(i).Interface().(pattern.Node))
 			}
 		}
 	}
@@ -152,6 +224,8 @@ func one(line string) string {
 	for _, b := range pat.Bindings {
 		bs = append(bs, c09ser.Hex(b))
 	}
+	var pt strings.Builder
+	serPat(&pt, pat.Root)
 	res, st := runMatch(pat, node)
 	var sb strings.Builder
 	names := make([]string, 0, len(st))
@@ -164,8 +238,8 @@ func one(line string) string {
 		sb.WriteString(" " + c09ser.Hex(k))
 		c09ser.Ser(&sb, st[k])
 	}
-	return fmt.Sprintf("P ok | STR %s | I %s | B %s | R %s | ST %s | T %s",
-		c09ser.Hex(pat.Root.String()), strings.Join(idx, ","), strings.Join(bs, ","), res, sb.String(), tree)
+	return fmt.Sprintf("P ok | PT %s | I %s | B %s | R %s | ST %s | T %s",
+		strings.TrimPrefix(pt.String(), " "), strings.Join(idx, ","), strings.Join(bs, ","), res, sb.String(), tree)
 }
 
 var nodeTypes = []pattern.Node{
